@@ -6,6 +6,7 @@ package chain
 
 import (
 	"fmt"
+	"math/big"
 
 	"github.com/NethermindEth/juno/blockchain"
 	"github.com/NethermindEth/juno/blockchain/networks"
@@ -18,6 +19,23 @@ import (
 
 func F(x uint64) *felt.Felt { f := felt.FromUint64[felt.Felt](x); return &f }
 
+// SierraClass builds the minimal Sierra class number id; its class hash is juno's own SierraClass.Hash().
+func SierraClass(id uint64) *core.SierraClass {
+	return &core.SierraClass{
+		Abi: "[]", AbiHash: F(7000 + id), ProgramHash: F(8000 + id), SemanticVersion: "0.1.0",
+		Program:  []felt.Felt{*F(id)},
+		Compiled: &core.CasmClass{Bytecode: []felt.Felt{*F(id)}, CompilerVersion: "2.0.0", Prime: big.NewInt(0)},
+	}
+}
+
+func SierraHash(id uint64) *felt.Felt {
+	h, err := SierraClass(id).Hash()
+	if err != nil {
+		panic(err)
+	}
+	return &h
+}
+
 // Ev is one event emitted by the transaction at index Tx of the block.
 type Ev struct {
 	From uint64
@@ -27,13 +45,15 @@ type Ev struct {
 
 // BlockSpec describes the content of a block in small integers; everything is turned into felts.
 type BlockSpec struct {
-	Version   string                       // protocol version, default 0.14.0
+	Version   string // protocol version, default 0.14.0
 	Timestamp uint64
 	Deploy    map[uint64]uint64            // address -> class hash
 	Replace   map[uint64]uint64            // address -> class hash
 	Nonces    map[uint64]uint64            // address -> nonce
 	Storage   map[uint64]map[uint64]uint64 // address -> slot -> value (0 = write zero)
 	DeclareV0 []uint64                     // cairo0 class hashes
+	DeclareV1 map[uint64]uint64            // sierra class id -> declared compiled (casm) class hash; class hash = SierraHash(id)
+	Migrate   map[uint64]uint64            // sierra class id -> new compiled class hash (MigratedClasses)
 	Txs       [][]Ev                       // one invoke transaction per entry, with its events
 	Salt      uint64                       // makes otherwise identical blocks differ (sequencer address)
 }
@@ -90,19 +110,27 @@ func (s *BlockSpec) diff() *core.StateDiff {
 	for _, c := range s.DeclareV0 {
 		d.DeclaredV0Classes = append(d.DeclaredV0Classes, F(c))
 	}
+	for id, casm := range s.DeclareV1 {
+		d.DeclaredV1Classes[*SierraHash(id)] = F(casm)
+	}
+	if len(s.Migrate) > 0 {
+		d.MigratedClasses = map[felt.SierraClassHash]felt.CasmClassHash{}
+		for id, casm := range s.Migrate {
+			d.MigratedClasses[felt.SierraClassHash(*SierraHash(id))] = felt.CasmClassHash(*F(casm))
+		}
+	}
 	return d
 }
-
 
 func (s *BlockSpec) txs(n uint64) ([]core.Transaction, []*core.TransactionReceipt) {
 	txs := make([]core.Transaction, 0, len(s.Txs))
 	rcs := make([]*core.TransactionReceipt, 0, len(s.Txs))
 	for i, evs := range s.Txs {
 		tx := &core.InvokeTransaction{
-			Version:         new(core.TransactionVersion).SetUint64(3),
-			SenderAddress:   F(77),
-			Nonce:           F(n*1000 + uint64(i)*16 + s.Salt&0xf),
-			CallData:        []felt.Felt{*F(uint64(i))},
+			Version:       new(core.TransactionVersion).SetUint64(3),
+			SenderAddress: F(77),
+			Nonce:         F(n*1000 + uint64(i)*16 + s.Salt&0xf),
+			CallData:      []felt.Felt{*F(uint64(i))},
 			ResourceBounds: map[core.Resource]core.ResourceBounds{
 				core.ResourceL1Gas:     {MaxAmount: 1, MaxPricePerUnit: F(1)},
 				core.ResourceL2Gas:     {MaxAmount: 1, MaxPricePerUnit: F(1)},
@@ -177,6 +205,9 @@ func (n *Node) Finalise(spec *BlockSpec) (*Built, error) {
 	classes := map[felt.Felt]core.ClassDefinition{}
 	for _, c := range spec.DeclareV0 {
 		classes[*F(c)] = &core.DeprecatedCairoClass{Abi: []byte("[]"), Program: "p"}
+	}
+	for id := range spec.DeclareV1 {
+		classes[*SierraHash(id)] = SierraClass(id)
 	}
 	if err := n.BC.Finalise(block, su, classes, nil); err != nil {
 		return nil, err
